@@ -138,7 +138,7 @@ def go_build(pid="common"):
     return rc == 0, out, exe
 
 
-def _run_chunk(exe, subcmd, lines, stall, burn=False):
+def _run_chunk(exe, subcmd, lines, stall, burn=False, retry=True):
     """Run one driver process over lines; a crash or a stall marks that case and restarts after it."""
     out = []
     i = 0
@@ -181,7 +181,13 @@ def _run_chunk(exe, subcmd, lines, stall, burn=False):
         if died:
             p.kill()
             p.wait()
-            out.append('(OT "%s" [])' % died)
+            verdict = '(OT "%s" [])' % died
+            if retry:
+                # a stall can be machine load and a crash can be collateral: the case is confirmed alone, with a
+                # much longer limit, before it is judged
+                again = _run_chunk(exe, subcmd, [lines[i + got]], max(90, stall * 20), burn, retry=False)
+                verdict = again[0]
+            out.append(verdict)
             i += got + 1
         else:
             p.wait()
